@@ -79,10 +79,12 @@ PROPS = {
         assumptions=[],
     ),
     "C03": dict(
-        units=["store", "parser"],
+        units=["store", "parser", "sessions"],
         undecided=["who is subscribed when (watch/unwatch/unwatch-all/disconnect races)", "delivery on a full channel (try_send)",
                    "final-view currency under concurrent writers"],
-        assumptions=["notify_watchers is trusted to hand exactly one (key,value,version) record to the watchers of the key and to leave the store untouched"],
+        assumptions=["notify_watchers is trusted to hand exactly one (key,value,version) record to the watchers of the key and to leave the store untouched",
+                     "unit sessions (use-db / release_previous_db / Client::left end no subscription): set_connection_counter is a trusted shim that leaves the watcher table alone "
+                     "(it writes $connections through set_key_value, whose store contracts frame the watchers)"],
     ),
     "C15": dict(
         units=["pending"],
